@@ -227,3 +227,64 @@ int vf_run_case(Src &s, Report &r) {
 }
 
 void vf_defaults(bool thorough, uint64_t *cases, size_t *max_size) { *cases = thorough ? 600000 : 15000; *max_size = 1200; }
+
+// Exhaustive sub-check: the sampling parameters the library itself computes for a set of services (vbi_sampling_par_from_services, which
+// vbi_raw_decoder_parameters(), the V4L2 interface and the proxy daemon use to open a device "for" these services) describe a set of scan
+// lines covering every service reported as supported, and both raw decoders accept the services with exactly these parameters.
+// Every subset of the service table entries of the 625 line systems and of the 525 line systems is enumerated.
+extern "C" {
+#include "src/sampling_par.h"
+}
+int vf_exhaustive(Report &r, bool, int w, int nw, VfExh &e) {
+	e.what = "vbi_sampling_par_from_services() and vbi_raw_decoder_parameters() for every subset of the service table entries of the 625 line systems "
+		 "and of the 525 line systems: the computed scan line window must contain the lines of every service reported as supported, and "
+		 "vbi3_raw_decoder_add_services() / vbi_raw_decoder_add_services() must accept these services with the computed parameters";
+	uint64_t n = 0;
+	for (int scanning : {625, 525}) {
+		vbi_videostd_set vs = _vbi_videostd_set_from_scanning(scanning);
+		std::vector<const _vbi_service_par *> ent;
+		for (const _vbi_service_par *p = _vbi_service_table; p->id; ++p) if (p->videostd_set & vs) ent.push_back(p);
+		unsigned total = 1u << ent.size();
+		for (unsigned mask = 1 + (unsigned) w; mask < total; mask += (unsigned) nw) {
+			vbi_service_set S = 0; for (size_t i = 0; i < ent.size(); ++i) if (mask & (1u << i)) S |= ent[i]->id;
+			for (int api = 0; api < 2; ++api) {
+				vbi_raw_decoder rd0; vbi_sampling_par sp; memset(&sp, 0, sizeof sp);
+				unsigned max_rate = 0; vbi_service_set got;
+				if (api == 0) got = vbi_sampling_par_from_services(&sp, &max_rate, vs, S);
+				else { vbi_raw_decoder_init(&rd0); int mr = 0; got = vbi_raw_decoder_parameters(&rd0, S, scanning, &mr); max_rate = (unsigned) mr;
+				       sp.scanning = rd0.scanning; sp.sampling_format = rd0.sampling_format; sp.sampling_rate = rd0.sampling_rate; sp.bytes_per_line = rd0.bytes_per_line; sp.offset = rd0.offset;
+				       sp.start[0] = rd0.start[0]; sp.start[1] = rd0.start[1]; sp.count[0] = rd0.count[0]; sp.count[1] = rd0.count[1]; sp.interlaced = rd0.interlaced; sp.synchronous = rd0.synchronous; }
+				const char *who = api ? "vbi_raw_decoder_parameters" : "vbi_sampling_par_from_services";
+				++n; ++e.evaluations; if (ent.size() > 1 && (mask & (mask - 1))) ++e.nontrivial;
+				if (got & ~0u & ~S) { /* an entry with several bits is reported whole, e.g. Teletext B for B_L25 */ }
+				for (size_t i = 0; i < ent.size(); ++i) {
+					const _vbi_service_par *p = ent[i];
+					if (!(p->id & S)) continue;
+					if ((p->id & got) != p->id) { if (api) vbi_raw_decoder_destroy(&rd0); return r.fail("C04:parameters-drop-a-service", "%s(0x%x, %d lines): service 0x%x (%s) is not reported as supported (0x%x)", who, S, scanning, p->id, p->label, got); }
+					for (int f = 0; f < 2; ++f) {
+						if (p->first[f] == 0 || p->last[f] == 0) continue;
+						if ((int) p->first[f] < sp.start[f] || (int) p->last[f] >= sp.start[f] + sp.count[f]) { if (api) vbi_raw_decoder_destroy(&rd0);
+							return r.fail("C04:parameters-do-not-cover-a-service", "%s(0x%x, %d lines) reports 0x%x as supported with start %d+%d count %d+%d, but service 0x%x (%s) is transmitted on lines %u-%u of field %d",
+								who, S, scanning, got, sp.start[0], sp.start[1], sp.count[0], sp.count[1], p->id, p->label, p->first[f], p->last[f], f + 1); }
+					}
+				}
+				// the decoders accept what was promised (the blank-line pseudo services have no slicer)
+				vbi_service_set want = got & ~(vbi_service_set)(VBI_SLICED_VBI_625 | VBI_SLICED_VBI_525);
+				if (api == 0) {
+					vbi3_raw_decoder *rd = vbi3_raw_decoder_new(&sp);
+					if (!rd) return r.fail("C04:parameters-rejected", "%s(0x%x): vbi3_raw_decoder_new() refuses the computed parameters", who, S);
+					vbi_service_set acc = vbi3_raw_decoder_add_services(rd, want, 0);
+					vbi3_raw_decoder_delete(rd);
+					if (acc != want) return r.fail("C04:computed-parameters-not-accepted", "%s(0x%x, %d lines) reports 0x%x with start %d+%d count %d+%d; vbi3_raw_decoder_add_services(0x%x, strict 0) accepts only 0x%x", who, S, scanning, got, sp.start[0], sp.start[1], sp.count[0], sp.count[1], want, acc);
+				} else {
+					vbi_service_set acc = vbi_raw_decoder_add_services(&rd0, want, 0);
+					vbi_raw_decoder_destroy(&rd0);
+					if (acc != want) return r.fail("C04:computed-parameters-not-accepted", "%s(0x%x, %d lines) reports 0x%x with start %d+%d count %d+%d; vbi_raw_decoder_add_services(0x%x, strict 0) accepts only 0x%x", who, S, scanning, got, sp.start[0], sp.start[1], sp.count[0], sp.count[1], want, acc);
+				}
+			}
+		}
+	}
+	(void) n;
+	e.complete = true;
+	return 0;
+}
